@@ -1135,3 +1135,42 @@ def run_shape(impl, shape):
 
 
 PROPERTY = C19
+
+
+# ---------------------------------------------------------------------------------------------
+# Second tie (appended; harness/gen_ast.py, coq/Base/PyMini.v, Proofs/AstFeaturesEquiv.v): the SOURCE TEXT of
+# get_help_attrs, is_thread_function, has_ls_param_or_annotation and of the inner decorators of
+# FeatureManager.feature / command (lambda-lifted) is translated on every run by a fail-closed AST translator
+# into a deep embedding, and the kernel re-checks that the decorators make the model's checks in the model's
+# order (name, duplicate, options - pygls.lsp as an oracle), raise the exception Model/Features.v names while
+# the registry is still unchanged, and otherwise record assign_help_attrs / wrap_with_server and write the
+# registry dictionaries as Features.feature / Features.command do.  NOT translated: thread(), wrap_with_server,
+# assign_help_attrs, assign_thread_attr (attributes of function objects, which have identity).  Imported late
+# ("Module::theorem") so that a broken translator tie does not hide the other obligations.
+sys.path.insert(0, os.path.dirname(os.path.abspath(__file__)))
+import gen_c19 as _gen_c19
+
+C19.obligations = list(C19.obligations) + ["Proofs.AstFeaturesEquiv::" + n for n in (
+    "ast_features_equiv", "ast_features_example")]
+C19.coq_targets = list(C19.coq_targets) + ["Proofs/AstFeaturesEquiv.vo"]
+C19.trusted_base = list(C19.trusted_base) + [
+    "translator tie: harness/gen_ast.py (Python ast -> PyMini, fail-closed) and the PyMini semantics "
+    "coq/Base/PyMini.v (hand-written meaning of the Python subset: str.strip, dict membership / item assignment, "
+    "recorded calls of functions that change function objects, pygls.lsp / inspect / typing as oracles)"]
+_prev_regenerate = getattr(C19, "regenerate", None)
+
+
+def _regenerate(self, chk):
+    try:
+        if _prev_regenerate is not None:
+            _prev_regenerate(self, chk)
+    finally:
+        core.coq_make(["Props/C19.vo", "Extract/ExtractC19.vo"])     # the differential side first
+        with core._Lock("coq"):                                      # coq/Gen is shared
+            try:
+                _gen_c19.main()
+            finally:
+                core._coq_make(["Proofs/AstFeaturesEquiv.vo"])
+
+
+C19.regenerate = _regenerate
